@@ -1,6 +1,9 @@
 (* C19 - all input forms and front ends give the same result.
    The part about the library entry points (parse / parsestream / split / format x str / bytes /
    stream); the command line is covered by the direct oracle in tools/props/C19.py. *)
+(* source pins: the functions of /repo the hand-written models in this file's cone mirror have the normalised AST they
+   were written from (tools/regen/gen_srcpins.py; a changed function breaks its Gen/Pin_*.v and this file with it) *)
+From SqlModel.Gen Require Pin_api_glue Pin_formatter_module.
 From SqlModel.Props Require C19cli.   (* the command line front end *)
 From SqlModel.Gen Require LexPins.   (* the scan loop, is_keyword, consume and the class-level state of sqlparse/lexer.py have the pinned shape *)
 From SqlModel Require Import Base PyStr Utf8 Utf8Facts Lexer.
